@@ -88,3 +88,50 @@ def run_queries(g: Dict[str, List[str]], b: Dict[str, List[str]] | None = None, 
             rec[key], rec[key + "exc"] = {}, _name(ex)
             rec["i" + key], rec["i" + key + "exc"] = {}, "skipped"
     return rec
+
+
+def hier_cases(g: Dict[str, List[str]], rng: random.Random, max_subsets: int = 10) -> List[Dict[str, Any]]:
+    """Restructure a closed CFG and ask find_headers_and_entries / find_exiting_and_exits of the SUB-GRAPH of every region (any depth)."""
+    from numba_scfg.core.datastructures.basic_block import RegionBlock
+
+    from .project import project
+
+    scfg = SCFG(graph={u: BasicBlock(name=u, _jump_targets=tuple(g[u])) for u in g})
+    try:
+        scfg.restructure()
+    except Exception:
+        return []
+    st = project(scfg)
+    out: List[Dict[str, Any]] = []
+
+    def walk(graph: SCFG) -> None:
+        for name, b in list(graph.graph.items()):
+            if isinstance(b, RegionBlock) and b.subregion is not None:
+                sub = b.subregion
+                names = list(sub.graph)
+                try:
+                    head = sub.find_head()
+                except AssertionError:
+                    head = names[0]
+                subsets = [(head,), tuple(names)] + [(n,) for n in names]
+                for _ in range(3):
+                    k = rng.randint(1, max(1, len(names)))
+                    subsets.append(tuple(rng.sample(names, k)))
+                seen = set()
+                for s_ in subsets[:max_subsets]:
+                    if frozenset(s_) in seen or not s_:
+                        continue
+                    seen.add(frozenset(s_))
+                    rec = {"H": st["H"], "root": st["root"], "lvl": str(name), "s": list(s_), "h": [], "e": [], "heexc": "", "x": [], "t": []}
+                    try:
+                        h, e = sub.find_headers_and_entries(set(s_))
+                        rec["h"], rec["e"] = list(h), list(e)
+                    except AssertionError as ex:
+                        rec["heexc"] = _name(ex)
+                    x, t = sub.find_exiting_and_exits(set(s_))
+                    rec["x"], rec["t"] = list(x), list(t)
+                    out.append(rec)
+                walk(sub)
+
+    walk(scfg)
+    return out
